@@ -346,6 +346,10 @@ gmpscan (const struct gmp_doscan_funs_t *funs, void *data,
               if (! seen_digit)
                 goto set_invalid;
 
+              /* now look for at least one digit in the exponent (the field
+                 width may end right here, before "another" is reached) */
+              seen_digit = 0;
+
             do_second:
               first = 0;
               STORE (c);
